@@ -465,8 +465,13 @@ func (g *gen) terminal() {
 		case 0: // into push data that holds a JUMPDEST byte
 			g.a.PushInt(uint64(g.a.Len() + 5))
 			g.a.Op(eu.JUMP, eu.PUSH1, eu.JUMPDEST, eu.STOP)
-		case 1: // to a byte that is not a JUMPDEST
-			g.a.PushInt(0)
+		case 1: // to a byte that is not a JUMPDEST (offset 0, unless the program happens to start with one:
+			// that would be a valid backward jump and the program would loop until its gas is gone)
+			if b := g.a.Bytes(); len(b) > 0 && b[0] == eu.JUMPDEST {
+				g.a.PushInt(uint64(g.a.Len() + 200))
+			} else {
+				g.a.PushInt(0)
+			}
 			g.a.Op(eu.JUMP)
 		case 2: // beyond the code
 			g.a.PushInt(uint64(g.a.Len() + 200))
